@@ -1026,9 +1026,17 @@ fn rip_params(rng: &mut Rng, c: &RipCmd) -> Vec<u8> {
         p = vec![d; n];
     }
     // continuation lines
-    if rng.chance(1, 6) && !p.is_empty() {
+    if rng.chance(1, 4) && !p.is_empty() {
         let at = rng.below(p.len() as u64 + 1) as usize;
-        let cont: &[u8] = if rng.chance(1, 2) { b"\\\n" } else { b"\\\r\n" };
+        // proper continuation lines, and a backslash that is NOT followed by a line break (escape of the next
+        // character: `\\|`, `\\\\`, `\\2`)
+        let cont: &[u8] = match rng.below(6) {
+            0 | 1 => b"\\\n",
+            2 => b"\\\r\n",
+            3 => b"\\",
+            4 => b"\\|",
+            _ => b"\\\\",
+        };
         for (k, b) in cont.iter().enumerate() {
             p.insert(at + k, *b);
         }
